@@ -94,7 +94,9 @@ Proof.
   intros H. unfold gen_look_core_el. cbv zeta.
   rewrite sin_pymod_2PI, cos_pymod_2PI.
   pose proof (U_over_norm_in_unit (deg2rad lat) (g + deg2rad lon) (x - ox) (y - oy) (z - oz) H) as B.
-  unfold topo_U, norm3 in *.
+  set (Q := topo_U (deg2rad lat) (g + deg2rad lon) (x - ox) (y - oy) (z - oz) / norm3 (x - ox) (y - oy) (z - oz)) in *.
+  (* whatever way the source spells the up-component and the range, it is Q modulo ring *)
+  match goal with |- context [ite_lt 1 ?q 1 ?q] => replace q with Q by (unfold Q, topo_U, norm3; eq_mod_ring) end.
   rewrite clip_id by exact B. reflexivity.
 Qed.
 
@@ -107,7 +109,8 @@ Proof.
   intros H. unfold gen_mlook_core_el. cbv zeta.
   rewrite sin_pymod_2PI, cos_pymod_2PI.
   pose proof (U_over_norm_in_unit (deg2rad lat) (g + deg2rad lon) (x - ox) (y - oy) (z - oz) H) as B.
-  unfold topo_U, norm3 in *.
+  set (Q := topo_U (deg2rad lat) (g + deg2rad lon) (x - ox) (y - oy) (z - oz) / norm3 (x - ox) (y - oy) (z - oz)) in *.
+  match goal with |- context [ite_lt 1 ?q 1 ?q] => replace q with Q by (unfold Q, topo_U, norm3; eq_mod_ring) end.
   rewrite clip_max_id by lra. reflexivity.
 Qed.
 
@@ -143,9 +146,8 @@ Proof.
   intros E N Hnz. unfold gen_mlook_core_az. cbv zeta.
   rewrite deg2rad_rad2deg, sin_pymod_2PI, cos_pymod_2PI.
   set (phi := deg2rad lat) in *. set (th := g + deg2rad lon) in *.
-  replace (- (- sin th * (x - ox) + cos th * (y - oy))) with (- E) by (unfold E, topo_E; ring).
-  replace (sin phi * cos th * (x - ox) + sin phi * sin th * (y - oy) - cos phi * (z - oz))
-    with (- N) by (unfold N, topo_N; ring).
+  match goal with |- context [atan2 ?u ?v] =>
+    replace u with (- E) by (unfold E, topo_E; ring); replace v with (- N) by (unfold N, topo_N; ring) end.
   assert (Hnz' : - N <> 0 \/ - E <> 0) by (destruct Hnz; [left|right]; lra).
   destruct (sin_cos_atan2 (- E) (- N) Hnz') as [S C].
   replace (- N * - N + - E * - E) with (N * N + E * E) in * by ring.
@@ -168,9 +170,8 @@ Proof.
   intros E N Hnz. unfold gen_look_core_az. cbv zeta.
   rewrite deg2rad_rad2deg, sin_pymod_2PI, cos_pymod_2PI.
   set (phi := deg2rad lat) in *. set (th := g + deg2rad lon) in *.
-  replace (- (- sin th * (x - ox) + cos th * (y - oy))) with (- E) by (unfold E, topo_E; ring).
-  replace (sin phi * cos th * (x - ox) + sin phi * sin th * (y - oy) - cos phi * (z - oz))
-    with (- N) by (unfold N, topo_N; ring).
+  match goal with |- context [atan (?u / ?v)] =>
+    replace u with (- E) by (unfold E, topo_E; ring); replace v with (- N) by (unfold N, topo_N; ring) end.
   pose proof PI_RGT_0 as HP.
   assert (Hh : 0 < sqrt (N * N + E * E)) by (apply sqrt_lt_R0; nra).
   assert (Hhh : sqrt (N * N + E * E) * sqrt (N * N + E * E) = N * N + E * E) by (apply sqrt_sqrt; nra).
